@@ -23,6 +23,9 @@ theorem trigger_matches_code (e : Endpoint) :
       Gen.C11.triggerCond e.authComplete e.kexComplete e.rekeyDue := by
   simp [Gen.C11.triggerCond, and_assoc]
 
+/-- the model defers the packet when the nested IGNORE call started an exchange, as the code does (repair of F58) -/
+theorem nested_ignore_rechecked : Gen.C11.recheckAfterIgnore = true := by decide
+
 /-- key-exchange and transport-control messages: everything `send_packet` never defers during an exchange -/
 def controlType (t : Nat) : Prop :=
   t ≤ MSG_KEX_LAST ∧ t ≠ MSG_DEBUG ∧ t ≠ MSG_SERVICE_REQUEST ∧ t ≠ MSG_SERVICE_ACCEPT
@@ -53,6 +56,22 @@ theorem not_defer_control (e : Endpoint) (t : Nat) (hd : mustDefer e t = false) 
   simp at hd
   omega
 
+theorem ignore_control : controlType MSG_IGNORE := by
+  simp [controlType, MSG_IGNORE, MSG_KEX_LAST, MSG_DEBUG, MSG_SERVICE_REQUEST, MSG_SERVICE_ACCEPT]
+
+theorem sendIgnore_okb (e : Endpoint) (h : OnlyKexBetween e.out) : OnlyKexBetween (sendIgnore e).out := by
+  unfold sendIgnore
+  split
+  · simp only
+    split
+    · apply emit_okb
+      · exact sendKexinit_okb { e with lateArmed := false } h
+      · intro _; exact ignore_control
+    · apply emit_okb _ _ (by simpa using h)
+      intro _; exact ignore_control
+  · apply emit_okb _ _ h
+    intro _; exact ignore_control
+
 theorem sendPacket_okb (e : Endpoint) (p : Pkt) (h : OnlyKexBetween e.out) : OnlyKexBetween (sendPacket e p).out := by
   unfold sendPacket
   -- the state after the rekey trigger
@@ -69,12 +88,14 @@ theorem sendPacket_okb (e : Endpoint) (p : Pkt) (h : OnlyKexBetween e.out) : Onl
     have hd' : mustDefer e1 p.type = false := by simpa using hd
     split
     · rename_i hig
-      apply emit_okb
-      · apply emit_okb _ _ h1
-        intro _; simp [controlType, MSG_IGNORE, MSG_KEX_LAST, MSG_DEBUG, MSG_SERVICE_REQUEST, MSG_SERVICE_ACCEPT]
-      · intro hk
-        simp only [emit] at hk
-        exact not_defer_control e1 p.type hd' hk
+      have h2 := sendIgnore_okb e1 h1
+      split
+      · rename_i hk
+        apply emit_okb _ _ h2
+        intro hk'
+        rw [hk] at hk'
+        cases hk'
+      · exact h2
     · apply emit_okb _ _ h1
       intro hk
       exact not_defer_control e1 p.type hd' hk
@@ -133,8 +154,29 @@ theorem only_kex_between (e : Endpoint) (evs : List Ev) (h : OnlyKexBetween e.ou
     cases ev with
     | submit p => exact sendPacket_okb e p h
     | limit => exact h
+    | late => exact h
     | recv w => exact recvPacket_okb e w h
 
+
+/-- **Witness of defect F58 (repaired).**  Before the repair `send_packet` wrote its packet after the nested
+    `send_packet(MSG_IGNORE)` whatever that call had done: when the time limit passed between the two clock
+    readings, the nested call sent KEXINIT and the outer call then wrote CHANNEL_DATA between the endpoint's KEXINIT
+    and its NEWKEYS. -/
+theorem prefix_emits_data_during_exchange :
+    let e : Endpoint := { server := false, lateArmed := true }
+    ((sendPacketPreFix e ⟨94, 1⟩).out.map fun w => (w.pkt.type, w.duringKex)) = [(20, true), (2, true), (94, true)] ∧
+    ¬ OnlyKexBetween (sendPacketPreFix e ⟨94, 1⟩).out := by
+  refine ⟨by decide, ?_⟩
+  intro h
+  have := h ⟨⟨94, 1⟩, 1, true⟩ (by decide) rfl
+  revert this
+  simp [controlType, MSG_KEX_LAST]
+
+/-- ... the repaired code holds the packet back: KEXINIT and IGNORE go out, the data waits for NEWKEYS -/
+theorem late_limit_defers_example :
+    let e := run { server := false } [.late, .submit ⟨94, 1⟩, .submit ⟨94, 2⟩]
+    (e.out.map fun w => w.pkt.type) = [20, 2] ∧ e.deferred = [⟨94, 1⟩, ⟨94, 2⟩] ∧ e.lateArmed = false := by
+  decide
 
 /-! ### no loss, duplication or reordering of what upper layers submit -/
 
@@ -183,6 +225,22 @@ theorem sendKexinit_good (e : Endpoint) (S : List Pkt) (h : Good e S) :
   have hg : Good { e with kexComplete := false, rekeyDue := false } S := ⟨h.auth, h.fifo, (by intro hk; cases hk), h.defOK⟩
   exact emit_good_ctl _ _ S hg (by simp [deferrable, MSG_KEXINIT, MSG_DEBUG, MSG_SERVICE_REQUEST, MSG_SERVICE_ACCEPT, MSG_KEX_LAST])
 
+theorem sendIgnore_good (e : Endpoint) (S : List Pkt) (h : Good e S) :
+    Good (sendIgnore e) S ∧ (sendIgnore e).deferred = e.deferred := by
+  have hi : deferrable MSG_IGNORE = false := by
+    simp [deferrable, MSG_IGNORE, MSG_DEBUG, MSG_SERVICE_REQUEST, MSG_SERVICE_ACCEPT, MSG_KEX_LAST]
+  unfold sendIgnore
+  split
+  · simp only
+    have h0 : Good { e with lateArmed := false } S := ⟨h.auth, h.fifo, h.idle, h.defOK⟩
+    split
+    · obtain ⟨g, _⟩ := sendKexinit_good { e with lateArmed := false } S h0
+      have g' : Good { sendKexinit { e with lateArmed := false } with kexinitSent := true } S :=
+        ⟨g.auth, g.fifo, g.idle, g.defOK⟩
+      exact ⟨emit_good_ctl _ _ S g' hi, rfl⟩
+    · exact ⟨emit_good_ctl _ _ S h0 hi, rfl⟩
+  · exact ⟨emit_good_ctl _ _ S h hi, rfl⟩
+
 theorem sendPacket_good (e : Endpoint) (p : Pkt) (S : List Pkt) (h : Good e S) :
     Good (sendPacket e p) (if deferrable p.type then S ++ [p] else S) := by
   unfold sendPacket
@@ -206,6 +264,17 @@ theorem sendPacket_good (e : Endpoint) (p : Pkt) (S : List Pkt) (h : Good e S) :
     exact emit_good_ctl e1 p S h1 hd
   | true =>
     simp only [Bool.true_and, if_true]
+    have hdefer : ∀ e2 : Endpoint, Good e2 S → e2.kexComplete = false →
+        Good { e2 with deferred := e2.deferred ++ [p] } (S ++ [p]) := by
+      intro e2 g2 hk2
+      refine ⟨g2.auth, ?_, ?_, ?_⟩
+      · simp only; rw [← List.append_assoc, g2.fifo]
+      · intro hk'; simp only at hk'; rw [hk2] at hk'; cases hk'
+      · intro q hq
+        simp only [List.mem_append, List.mem_singleton] at hq
+        rcases hq with hq | rfl
+        · exact g2.defOK q hq
+        · exact hd
     cases hk : e1.kexComplete with
     | false =>
       simp only [Bool.not_false, if_true]
@@ -232,9 +301,11 @@ theorem sendPacket_good (e : Endpoint) (p : Pkt) (S : List Pkt) (h : Good e S) :
         · intro _; exact hd2
         · intro q hq; simp only [emit] at hq; rw [hd2] at hq; cases hq
       split
-      · apply hign
-        · exact emit_good_ctl e1 _ S h1 (by simp [deferrable, MSG_IGNORE, MSG_DEBUG, MSG_SERVICE_REQUEST, MSG_SERVICE_ACCEPT, MSG_KEX_LAST])
-        · simpa [emit] using hidle
+      · obtain ⟨g2, hdf⟩ := sendIgnore_good e1 S h1
+        split
+        · exact hign _ g2 (by rw [hdf]; exact hidle)
+        · rename_i hk2
+          exact hdefer _ g2 (by simpa using hk2)
       · exact hign e1 h1 hidle
 
 theorem foldl_sendPacket_good (l : List Pkt) (hl : ∀ p ∈ l, deferrable p.type = true) (e : Endpoint) (S : List Pkt)
@@ -334,6 +405,9 @@ theorem deferred_fifo (e : Endpoint) (S : List Pkt) (evs : List Ev) (h : Good e 
     | limit =>
       simp only [step, submitted]
       exact ih _ S ⟨h.auth, h.fifo, h.idle, h.defOK⟩
+    | late =>
+      simp only [step, submitted]
+      exact ih _ S ⟨h.auth, h.fifo, h.idle, h.defOK⟩
     | recv w =>
       simp only [step, submitted]
       exact ih _ S (recvPacket_good e w S h)
@@ -389,6 +463,18 @@ theorem emit_keys (ep0 : Nat) (e : Endpoint) (p : Pkt) (h : Keys ep0 e) (hp : p.
   · simp only [emit, endEpoch_append, endEpoch, hp, if_false]
     exact h.cur
 
+theorem sendIgnore_keys (ep0 : Nat) (e : Endpoint) (h : Keys ep0 e) : Keys ep0 (sendIgnore e) := by
+  have hi : (⟨MSG_IGNORE, 0⟩ : Pkt).type ≠ MSG_NEWKEYS := by simp [MSG_IGNORE, MSG_NEWKEYS]
+  unfold sendIgnore
+  split
+  · simp only
+    split
+    · have := emit_keys ep0 { e with lateArmed := false, kexComplete := false, rekeyDue := false } ⟨MSG_KEXINIT, 0⟩
+        ⟨h.ok, h.cur⟩ (by simp [MSG_KEXINIT, MSG_NEWKEYS])
+      exact emit_keys ep0 _ _ ⟨this.ok, this.cur⟩ hi
+    · exact emit_keys ep0 _ _ ⟨h.ok, h.cur⟩ hi
+  · exact emit_keys ep0 _ _ h hi
+
 theorem sendPacket_keys (ep0 : Nat) (e : Endpoint) (p : Pkt) (h : Keys ep0 e) (hp : p.type ≠ MSG_NEWKEYS) :
     Keys ep0 (sendPacket e p) := by
   unfold sendPacket
@@ -404,7 +490,10 @@ theorem sendPacket_keys (ep0 : Nat) (e : Endpoint) (p : Pkt) (h : Keys ep0 e) (h
   split
   · exact ⟨h1.ok, h1.cur⟩
   · split
-    · exact emit_keys ep0 _ p (emit_keys ep0 e1 _ h1 (by simp [MSG_IGNORE, MSG_NEWKEYS])) hp
+    · have h2 := sendIgnore_keys ep0 e1 h1
+      split
+      · exact emit_keys ep0 _ p h2 hp
+      · exact ⟨h2.ok, h2.cur⟩
     · exact emit_keys ep0 e1 p h1 hp
 
 theorem foldl_sendPacket_keys (ep0 : Nat) (l : List Pkt) (hl : ∀ p ∈ l, p.type ≠ MSG_NEWKEYS) (e : Endpoint)
@@ -416,6 +505,13 @@ theorem foldl_sendPacket_keys (ep0 : Nat) (l : List Pkt) (hl : ∀ p ∈ l, p.ty
 
 /-- the deferral queue never holds a NEWKEYS (it is a control message) -/
 def QueueClean (e : Endpoint) : Prop := ∀ p ∈ e.deferred, p.type ≠ MSG_NEWKEYS
+
+theorem sendIgnore_deferred (e : Endpoint) : (sendIgnore e).deferred = e.deferred := by
+  unfold sendIgnore
+  split
+  · simp only
+    split <;> rfl
+  · rfl
 
 theorem sendPacket_clean (e : Endpoint) (p : Pkt) (h : QueueClean e) (hp : p.type ≠ MSG_NEWKEYS) :
     QueueClean (sendPacket e p) := by
@@ -433,7 +529,15 @@ theorem sendPacket_clean (e : Endpoint) (p : Pkt) (h : QueueClean e) (hp : p.typ
     rcases hq with hq | rfl
     · exact h1 q hq
     · exact hp
-  · split <;> simpa [QueueClean, emit] using h1
+  · split
+    · split
+      · simpa [QueueClean, emit, sendIgnore_deferred] using h1
+      · intro q hq
+        simp only [List.mem_append, List.mem_singleton, sendIgnore_deferred] at hq
+        rcases hq with hq | rfl
+        · exact h1 q hq
+        · exact hp
+    · simpa [QueueClean, emit] using h1
 
 theorem foldl_sendPacket_clean (l : List Pkt) (hl : ∀ p ∈ l, p.type ≠ MSG_NEWKEYS) (e : Endpoint)
     (h : QueueClean e) : QueueClean (l.foldl sendPacket e) := by
@@ -548,6 +652,9 @@ theorem keys_fresh (ep0 : Nat) (e : Endpoint) (evs : List Ev) (h : Keys ep0 e) (
     | limit =>
       simp only [noNewkeys] at hn
       exact ih _ ⟨h.ok, h.cur⟩ hq hn
+    | late =>
+      simp only [noNewkeys] at hn
+      exact ih _ ⟨h.ok, h.cur⟩ hq hn
     | recv w =>
       simp only [noNewkeys] at hn
       obtain ⟨k, q⟩ := recvPacket_keys ep0 e w h hq
@@ -555,10 +662,17 @@ theorem keys_fresh (ep0 : Nat) (e : Endpoint) (evs : List Ev) (h : Keys ep0 e) (
 
 /-! ### session identifier -/
 
+theorem sendIgnore_sid (e : Endpoint) : (sendIgnore e).sessionId = e.sessionId := by
+  unfold sendIgnore
+  split
+  · simp only
+    split <;> rfl
+  · rfl
+
 theorem sendPacket_sid (e : Endpoint) (p : Pkt) : (sendPacket e p).sessionId = e.sessionId := by
   unfold sendPacket
   simp only
-  split <;> split <;> (try split) <;> simp [sendKexinit, emit]
+  split <;> split <;> (try split) <;> (try split) <;> simp [sendKexinit, emit, sendIgnore_sid]
 
 theorem foldl_sendPacket_sid (l : List Pkt) (e : Endpoint) : (l.foldl sendPacket e).sessionId = e.sessionId := by
   induction l generalizing e with
@@ -609,6 +723,7 @@ theorem session_id_constant (e : Endpoint) (evs : List Ev) (h : Nat) (hs : e.ses
     cases ev with
     | submit p => simp only [step]; rw [sendPacket_sid]; exact hs
     | limit => exact hs
+    | late => exact hs
     | recv w => exact recvPacket_sid e w h hs
 
 /-! ### the two ends stay in step: the receiver's key epoch is always the one the next packet was sealed under -/
@@ -650,20 +765,34 @@ theorem extends_trans {a b c : Endpoint} (h1 : Extends a b) (h2 : Extends b c) :
 
 theorem emit_extends (e : Endpoint) (p : Pkt) : Extends e (emit e p) := ⟨_, rfl⟩
 
+theorem sendKexinit_extends (e : Endpoint) : Extends e (sendKexinit e) := ⟨_, rfl⟩
+
+theorem sendIgnore_extends (e : Endpoint) : Extends e (sendIgnore e) := by
+  unfold sendIgnore
+  split
+  · simp only
+    split
+    · exact extends_trans (⟨[], by simp⟩ : Extends e { e with lateArmed := false })
+        (extends_trans (sendKexinit_extends _) (extends_trans ⟨[], by simp⟩ (emit_extends _ _)))
+    · exact extends_trans (⟨[], by simp⟩ : Extends e { e with lateArmed := false }) (emit_extends _ _)
+  · exact emit_extends _ _
+
 theorem sendPacket_extends (e : Endpoint) (p : Pkt) : Extends e (sendPacket e p) := by
   unfold sendPacket
+  have h1 : Extends e
+      (if e.authComplete && e.kexComplete && e.rekeyDue then { sendKexinit e with kexinitSent := true } else e) := by
+    split
+    · exact extends_trans (sendKexinit_extends e) ⟨[], by simp⟩
+    · exact extends_refl e
+  generalize (if e.authComplete && e.kexComplete && e.rekeyDue then { sendKexinit e with kexinitSent := true } else e) = e1 at h1 ⊢
   simp only
   split
+  · exact extends_trans h1 ⟨[], by simp⟩
   · split
-    · exact ⟨[⟨⟨MSG_KEXINIT, 0⟩, e.sendEpoch, !false⟩], by simp [sendKexinit, emit]⟩
     · split
-      · exact ⟨_, by simp only [sendKexinit, emit, List.append_assoc]; rfl⟩
-      · exact ⟨_, by simp only [sendKexinit, emit, List.append_assoc]; rfl⟩
-  · split
-    · exact extends_refl e
-    · split
-      · exact ⟨_, by simp only [emit, List.append_assoc]; rfl⟩
-      · exact emit_extends e p
+      · exact extends_trans h1 (extends_trans (sendIgnore_extends e1) (emit_extends _ _))
+      · exact extends_trans h1 (extends_trans (sendIgnore_extends e1) ⟨[], by simp⟩)
+    · exact extends_trans h1 (emit_extends e1 p)
 
 theorem foldl_sendPacket_extends (l : List Pkt) (e : Endpoint) : Extends e (l.foldl sendPacket e) := by
   induction l generalizing e with
@@ -710,11 +839,20 @@ theorem recvPacket_extends (e : Endpoint) (w : Wire) : Extends e (recvPacket e w
               · exact extends_refl e
               · exact hf _ rfl
 
+theorem sendIgnore_recvside (e : Endpoint) :
+    (sendIgnore e).recvEpoch = e.recvEpoch ∧ (sendIgnore e).failed = e.failed := by
+  unfold sendIgnore
+  split
+  · simp only
+    split <;> exact ⟨rfl, rfl⟩
+  · exact ⟨rfl, rfl⟩
+
 theorem sendPacket_recvside (e : Endpoint) (p : Pkt) :
     (sendPacket e p).recvEpoch = e.recvEpoch ∧ (sendPacket e p).failed = e.failed := by
   unfold sendPacket
   simp only
-  split <;> split <;> (try split) <;> simp [sendKexinit, emit]
+  split <;> split <;> (try split) <;> (try split) <;>
+    simp [sendKexinit, emit, (sendIgnore_recvside _).1, (sendIgnore_recvside _).2]
 
 theorem foldl_sendPacket_recvside (l : List Pkt) (e : Endpoint) :
     (l.foldl sendPacket e).recvEpoch = e.recvEpoch ∧ (l.foldl sendPacket e).failed = e.failed := by
@@ -845,6 +983,12 @@ theorem sysStep_inv (y : Sys) (ev : SysEv) (h : SysInv y)
   | limitS =>
     simp only [sysStep]
     exact ⟨h.kc, h.qc, ⟨h.ks.ok, h.ks.cur⟩, h.qs, h.rs, h.rc, h.bc, h.bs⟩
+  | lateC =>
+    simp only [sysStep]
+    exact ⟨⟨h.kc.ok, h.kc.cur⟩, h.qc, h.ks, h.qs, h.rs, h.rc, h.bc, h.bs⟩
+  | lateS =>
+    simp only [sysStep]
+    exact ⟨h.kc, h.qc, ⟨h.ks.ok, h.ks.cur⟩, h.qs, h.rs, h.rc, h.bc, h.bs⟩
   | deliverCS =>
     simp only [sysStep]
     split
@@ -903,6 +1047,8 @@ theorem sysRun_inv (evs : List SysEv) (y : Sys) (h : SysInv y) (hn : sysNoNewkey
     | submitS p => exact ih _ (sysStep_inv y _ h hn.1) hn.2
     | limitC => exact ih _ (sysStep_inv y _ h trivial) hn
     | limitS => exact ih _ (sysStep_inv y _ h trivial) hn
+    | lateC => exact ih _ (sysStep_inv y _ h trivial) hn
+    | lateS => exact ih _ (sysStep_inv y _ h trivial) hn
     | deliverCS => exact ih _ (sysStep_inv y _ h trivial) hn
     | deliverSC => exact ih _ (sysStep_inv y _ h trivial) hn
 
@@ -1008,6 +1154,12 @@ theorem fullInv_step (y : Sys) (ev : SysEv) (h : FullInv y)
   | limitS =>
     have hsi := sysStep_inv y .limitS h.si trivial
     exact ⟨hsi, h.lc, ⟨h.ls.auth, h.ls.kc, h.ls.excl, h.ls.q⟩, h.rc, h.rs, h.ab⟩
+  | lateC =>
+    have hsi := sysStep_inv y .lateC h.si trivial
+    exact ⟨hsi, ⟨h.lc.auth, h.lc.kc, h.lc.excl, h.lc.q⟩, h.ls, h.rc, h.rs, h.ab⟩
+  | lateS =>
+    have hsi := sysStep_inv y .lateS h.si trivial
+    exact ⟨hsi, h.lc, ⟨h.ls.auth, h.ls.kc, h.ls.excl, h.ls.q⟩, h.rc, h.rs, h.ab⟩
   | deliverCS =>
     have hsi := sysStep_inv y .deliverCS h.si trivial
     cases hw : y.c.out[y.cDelivered]? with
@@ -1056,6 +1208,8 @@ theorem fullInv_run (evs : List SysEv) (y : Sys) (h : FullInv y) (hn : sysAppOnl
     | submitS p => exact ih _ (fullInv_step y _ h hn.1) hn.2
     | limitC => exact ih _ (fullInv_step y _ h trivial) hn
     | limitS => exact ih _ (fullInv_step y _ h trivial) hn
+    | lateC => exact ih _ (fullInv_step y _ h trivial) hn
+    | lateS => exact ih _ (fullInv_step y _ h trivial) hn
     | deliverCS => exact ih _ (fullInv_step y _ h trivial) hn
     | deliverSC => exact ih _ (fullInv_step y _ h trivial) hn
 
@@ -1132,6 +1286,16 @@ theorem sendKexinit_ook (e : Endpoint) (h : OutOK e) : OutOK (sendKexinit e) := 
   unfold sendKexinit
   exact emit_ook _ _ ⟨h.wire, h.queue⟩ (by decide)
 
+theorem sendIgnore_ook (e : Endpoint) (h : OutOK e) : OutOK (sendIgnore e) := by
+  unfold sendIgnore
+  split
+  · simp only
+    split
+    · have hk := sendKexinit_ook { e with lateArmed := false } ⟨h.wire, h.queue⟩
+      exact emit_ook _ _ ⟨hk.wire, hk.queue⟩ (by decide)
+    · exact emit_ook _ _ ⟨h.wire, h.queue⟩ (by decide)
+  · exact emit_ook _ _ h (by decide)
+
 theorem sendPacket_ook (e : Endpoint) (p : Pkt) (h : OutOK e) (hp : okType p.type = true) : OutOK (sendPacket e p) := by
   unfold sendPacket
   have h1 : OutOK
@@ -1149,7 +1313,15 @@ theorem sendPacket_ook (e : Endpoint) (p : Pkt) (h : OutOK e) (hp : okType p.typ
     · exact h1.queue q hq
     · exact hp
   · split
-    · exact emit_ook _ _ (emit_ook _ _ h1 (by decide)) hp
+    · have h2 := sendIgnore_ook e1 h1
+      split
+      · exact emit_ook _ _ h2 hp
+      · refine ⟨h2.wire, ?_⟩
+        intro q hq
+        simp only [List.mem_append, List.mem_singleton] at hq
+        rcases hq with hq | rfl
+        · exact h2.queue q hq
+        · exact hp
     · exact emit_ook _ _ h1 hp
 
 theorem foldl_sendPacket_ook (l : List Pkt) (e : Endpoint) (h : OutOK e) (hl : ∀ p ∈ l, okType p.type = true) :
@@ -1197,10 +1369,17 @@ theorem recvPacket_ook (e : Endpoint) (w : Wire) (h : OutOK e) : OutOK (recvPack
               · exact hf _ rfl rfl
 
 /-- sending never touches what was delivered -/
+theorem sendIgnore_delivered (e : Endpoint) : (sendIgnore e).delivered = e.delivered := by
+  unfold sendIgnore
+  split
+  · simp only
+    split <;> rfl
+  · rfl
+
 theorem sendPacket_delivered (e : Endpoint) (p : Pkt) : (sendPacket e p).delivered = e.delivered := by
   unfold sendPacket
   simp only
-  split <;> split <;> (try split) <;> simp [sendKexinit, emit]
+  split <;> split <;> (try split) <;> (try split) <;> simp [sendKexinit, emit, sendIgnore_delivered]
 
 theorem foldl_sendPacket_delivered (l : List Pkt) (e : Endpoint) : (l.foldl sendPacket e).delivered = e.delivered := by
   induction l generalizing e with
@@ -1354,6 +1533,12 @@ theorem delInv_step (y : Sys) (ev : SysEv) (Sc Ss : List Pkt) (hF : FullInv y) (
   | limitS =>
     simp only [sysStep, submittedC, submittedS, List.append_nil]
     exact ⟨h.gc, ⟨h.gs.auth, h.gs.fifo, h.gs.idle, h.gs.defOK⟩, h.oc, ⟨h.os.wire, h.os.queue⟩, h.ds, h.dc⟩
+  | lateC =>
+    simp only [sysStep, submittedC, submittedS, List.append_nil]
+    exact ⟨⟨h.gc.auth, h.gc.fifo, h.gc.idle, h.gc.defOK⟩, h.gs, ⟨h.oc.wire, h.oc.queue⟩, h.os, h.ds, h.dc⟩
+  | lateS =>
+    simp only [sysStep, submittedC, submittedS, List.append_nil]
+    exact ⟨h.gc, ⟨h.gs.auth, h.gs.fifo, h.gs.idle, h.gs.defOK⟩, h.oc, ⟨h.os.wire, h.os.queue⟩, h.ds, h.dc⟩
   | deliverCS =>
     simp only [submittedC, submittedS, List.append_nil]
     cases hw : y.c.out[y.cDelivered]? with
@@ -1416,6 +1601,8 @@ theorem delInv_run (evs : List SysEv) (y : Sys) (Sc Ss : List Pkt) (hF : FullInv
     | submitS p => exact ih _ _ _ (fullInv_step y _ hF hn.1) (delInv_step y _ Sc Ss hF h hn.1) hn.2
     | limitC => exact ih _ _ _ (fullInv_step y _ hF trivial) (delInv_step y _ Sc Ss hF h trivial) hn
     | limitS => exact ih _ _ _ (fullInv_step y _ hF trivial) (delInv_step y _ Sc Ss hF h trivial) hn
+    | lateC => exact ih _ _ _ (fullInv_step y _ hF trivial) (delInv_step y _ Sc Ss hF h trivial) hn
+    | lateS => exact ih _ _ _ (fullInv_step y _ hF trivial) (delInv_step y _ Sc Ss hF h trivial) hn
     | deliverCS => exact ih _ _ _ (fullInv_step y _ hF trivial) (delInv_step y _ Sc Ss hF h trivial) hn
     | deliverSC => exact ih _ _ _ (fullInv_step y _ hF trivial) (delInv_step y _ Sc Ss hF h trivial) hn
 
